@@ -117,4 +117,13 @@ MUTANTS = [
     ("pickle-loses-dims", ["C20"], A, "        return _unpickle_array_annotation, (x.dtype, x.array_type, x.dim_str, dtypes)", "        return _unpickle_array_annotation, (x.dtype, x.array_type, '...', dtypes)"),
     ("sentinel-by-value", ["C20"], A, "    def __reduce__(self):\n        return self._name\n", ""),
     ("pickle-dimstr-first-token", ["C20"], A, "        return _unpickle_array_annotation, (x.dtype, x.array_type, x.dim_str, dtypes)", "        return _unpickle_array_annotation, (x.dtype, x.array_type, x.dim_str.replace('#', ''), dtypes)"),
+    ("nest-union-not-intersection", ["C15"], A, "            dtypes = tuple(x for x in dtypes if x in array_type.dtypes)", "            dtypes = tuple(dict.fromkeys(tuple(dtypes) + tuple(array_type.dtypes)))"),
+    ("nest-dims-order", ["C15"], A, "        dims = dims + array_type.dims", "        dims = array_type.dims + dims"),
+    ("nest-variadic-shift", ["C15"], A, "                index_variadic = array_type.index_variadic + len(dims)", "                index_variadic = array_type.index_variadic"),
+    ("nest-any-outer-keeps-any", ["C15"], A, "        if dtypes is _any_dtype:\n            dtypes = array_type.dtypes", "        if dtypes is _any_dtype:\n            pass"),
+    ("scalar-any-rank", ["C15"], A, "    for dim in dims:\n        if dim is not _anonymous_variadic_dim and not isinstance(\n            dim, _NamedVariadicDim\n        ):\n            return False", "    pass"),
+    ("scalar-substring", ["C15"], A, "any(d.startswith(dtype) for d in dtypes)", "any(dtype in d for d in dtypes)"),
+    ("typevar-bound-ignored", ["C15"], A, "            else:\n                array_type = bound", "            else:\n                array_type = Any"),
+    ("union-first-only", ["C15"], A, "            out = [_make_array(x, dim_str, cls) for x in get_args(array_type)]", "            out = [_make_array(x, dim_str, cls) for x in get_args(array_type)[:1]]"),
+    ("nest-both-variadic-allowed", ["C15"], A, '                raise ValueError(\n                    "Cannot use variadic specifiers (`*name` or `...`) "\n                    "in both the original array and the extended array"\n                )', "                pass"),
 ]
